@@ -130,7 +130,6 @@ func lemmaBackoffMono(T, i, j int) {
 //@   ensures[matched] result == nil ==> match == nil || specMatch(match, response)
 //@   ensures[one-send] sends() == s0 + 1 ==> sentAt() == t0 && lastSent() == W && lastSentTo() == net.Addr(dest)
 //@   ensures[in-use] old(has(c.pending, p.TransactionID)) ==> result != nil && sends() == s0 && now() == t0
-//@   loop 0 invariant[timer] isTimer(deadline) && fireAt(deadline) == t0 + int(timeout)
 //@   loop 0 invariant[time] t0 <= now() && now() <= t0 + int(timeout)
 //@   loop 0 invariant[sent] sends() == s0 + 1 && sentAt() == t0 && lastSent() == W && lastSentTo() == net.Addr(dest) && !old(has(c.pending, p.TransactionID))
 
